@@ -58,7 +58,7 @@ PROPS = {
         explanation='Proved (Verus) for every PurlShape implementation: build() returns a value with non-empty name, the qualifier invariant (valid lower-case keys, strictly ascending, each retrievable: search/get contracts), non-empty values including the checksum text, after exactly one hook call (build_post); from_str ends in build() (parse_post); built-in shapes validate and ASCII-lower-case the type; the checksum text is the strictly sorted listing with lower-case hex (canon_text); theorem_c04_checksum (group c01, on theorem_checksum_text_shape of group ckfix): the checksum text of every value build() hands out is the comma-joined listing algorithm:hex of a non-empty sequence of entries in strictly ascending algorithm order with an even number of hex digits each, and contains no ASCII upper-case letter (a text that Unicode lower-casing leaves alone has none: lemma_lower_fixed_no_upper). Every clause of the statement is thus a postcondition of build() / from_str / the accessors / get, or a lemma over them. Assumed: Vec::retain keeps exactly the elements with non-empty values, in order (the one std call inside Qualifiers::retain, FnMut is outside Verus); a user-written hook keeps the qualifier invariant (it can reach the list only through the public API, whose mutators are verified to keep it). The map / checksum / protocol / builder suites remain as a cross-check on the compiled code.'),
     'C05': dict(level='proof', groups=['parse', 'parse_seg', 'lib_shape', 'qual', 'pkgtype', 'builder', 'cksum', 'c05', 'c02', 'ckfix'], kani=['type_char', 'key_char'], bounded=['faults', 'tokens:C05', 'scale:C05', 'lower', 'checksum'] + A,
         explanation="THEOREMS (group c05, on the raw-text theorems of group c02): theorem_c05_raw -- for ANY raw component texts obeying the separator discipline (the type substring may be anything without '/'), whatever parse_post allows is an error exactly when raw_error says so, and then THAT error passed through From: raw_error examines, in the parser's order, the subpath (InvalidEscape), the qualifiers (InvalidQualifier / InvalidEscape), the type syntax (InvalidPackageType), version, namespace, name (InvalidEscape), an empty decoded name (MissingRequiredField(Name)), a malformed checksum (InvalidQualifier) -- so each listed defect, when it is the only one, gets the listed error (theorem_c05_bad_type / _bad_subpath / _bad_qualifiers / _bad_version / _bad_namespace / _bad_name / _empty_name / _bad_checksum), and the theorem also says which error wins when there are several. theorem_c05_scheme (any string without the pkg: prefix, any type parameter), theorem_c05_no_type, theorem_c05_no_name_separator. What makes a component defective, at ANY position among ANY other pieces / items: lemma_c05_ns_piece / _sub_piece (a piece that does not decode or hides a '/'; an escaped '.' / '..'), lemma_c05_item + lemma_c05_item_kinds (no '=', invalid / empty / percent-encoded key, key repeated in any letter case, undecodable value), lemma_c05_checksum_kinds (entry without ':', algorithm repeated in any case, odd or non-hex digits), lemma_encoded_type_invalid. Typed PURL: theorem_c05_raw_typed (the same errors wrapped in PackageError::Parse; Maven without a significant namespace: MissingRequiredField(Namespace), before the name check), theorem_c05_unknown_type (UnsupportedType). Five vacuity guards. With from_str == parse_post (group parse) this is C05 for all strings of the stated shapes. Which byte sequences are invalid UTF-8 escapes is the dependency function dec (dec(x) is None). Pieces: Proved (Verus): the error clauses of parse_post (scheme, missing type, missing name, invalid type before the conversion), dq_fold (item without '=', invalid key, key already present => InvalidQualifier; undecodable value => InvalidEscape), sub_fold / ns_fold (hidden '/', encoded dot segments, bad UTF-8 => InvalidEscape), ck_parse / canon text (malformed checksum => InvalidQualifier), build_post (empty name), pkg_finish_rel (maven without namespace), with the conversion of ParseError through From. BOUNDED: that a string with exactly one listed defect reaches exactly that clause -- every fault kind x position x spelling over S, never-accepted over T_N; PackageType::from_str (phf)."),
-    'C06': dict(level='other', groups=['lib_lower', 'lib_shape', 'pkgtype', 'qual', 'builder', 'purl', 'parse_seg', 'cksum', 'fmt', 'parse'], kani=ESC + ['type_char', 'key_char', 'empty_is_invalid', 'package_type_names'],
+    'C06': dict(level='other', census=True, groups=['lib_lower', 'lib_shape', 'pkgtype', 'qual', 'builder', 'purl', 'parse_seg', 'cksum', 'fmt', 'parse', 'serde', 'misc'], kani=ESC + ['type_char', 'key_char', 'empty_is_invalid', 'package_type_names'],
         bounded=['nopanic', 'tokens:C06', 'scale:C06', 'checksum', 'qualmap', 'protocol', 'preds', 'builder', 'names', 'lower', 'pkgrules', 'comb', 'eq'],
         explanation='Deductive: every verified unit carries Verus obligations for arithmetic overflow (the checksum capacity computation included), unwrap, indexing, the three documented panics as preconditions, and termination of its loops; Kani adds its automatic checks on the harnessed code. Functions outside Verus (retain, try_from_iter, Index, IterMut, Entry combinators, Checksum accessors, serde, PackageType::from_str) are covered only BOUNDED: catch_unwind around every call of every domain, overflow checks on, random strings to 1 MiB.'),
     'C07': dict(level='proof', groups=['parse_seg', 'parse'], kani=[], bounded=['segments', 'tokens:C07', 'scale:C07', 'faults'],
@@ -104,7 +104,7 @@ PROPS = {
                     'BOUNDED: values that are not normalised (builder-made namespaces with empty segments etc.) and the end-to-end statement on the compiled code: all pairs of a near-collision corpus, parsed and built, String and PackageType.'),
 }
 
-ALL_GROUPS = ['lib_lower', 'lib_shape', 'pkgtype', 'qual', 'builder', 'purl', 'parse_seg', 'cksum', 'fmt', 'parse', 'inverse', 'serde', 'c01', 'ckfix', 'c14', 'c02', 'c05']
+ALL_GROUPS = ['lib_lower', 'lib_shape', 'pkgtype', 'qual', 'builder', 'purl', 'parse_seg', 'cksum', 'fmt', 'parse', 'inverse', 'serde', 'c01', 'ckfix', 'c14', 'c02', 'c05', 'misc']
 
 
 def _auto_groups():
